@@ -14,11 +14,16 @@ import (
 func main() {
 	repo := flag.String("repo", "/repo", "repository")
 	list := flag.Bool("list", false, "list function names matching the argument")
+	anchors := flag.Bool("anchors", false, "print the frozen anchor table (Go source) for internal/load/anchors_gen.go")
 	flag.Parse()
 	p, err := load.Load(load.Options{Dir: *repo})
 	if err != nil {
 		fmt.Fprintln(os.Stderr, err)
 		os.Exit(2)
+	}
+	if *anchors {
+		fmt.Print(load.GenAnchors(p))
+		return
 	}
 	for _, a := range flag.Args() {
 		if *list {
